@@ -54,7 +54,15 @@ def K(fn, name, params, env, result, ret_type="Option Scalar", doc=""):
                   env={**TABLES, **env}, consts=CONSTS, calls=CALLS, result=result, doc=doc or f"`{fn}`")
 
 
+def scalar_result(tr, ret):
+    return "(" + tr.ex(ret)[0] + ")"
+
+
 KERNELS = [
+    K("lt", "lt_src", "(a b : Nat)", {"a": ("a", "u64"), "b": ("b", "u64")}, scalar_result, ret_type="Option Nat"),
+    K("mul128", "mul128_src", "(a b : Nat)", {"a": ("a", "u64"), "b": ("b", "u64")}, scalar_result, ret_type="Option Nat"),
+    K("shr128", "shr128_src", "(value shift : Nat)", {"value": ("value", "u128"), "shift": ("shift", "usize")}, scalar_result,
+      ret_type="Option Nat"),
     K("lt_order", "lt_order_src", "(v : Scalar)", {"v": (L("v"), "u64")}, bool_result, ret_type="Option Bool"),
     K("reduce256", "reduce256_src", "(r : Scalar)", {"r": (L("r"), "u64")}, arr_result("r")),
     K("barrett_reduce256", "barrett_reduce256_src", "(q1 r1 : Scalar)", {"q1": (L("q1"), "u64"), "r1": (L("r1"), "u64")},
